@@ -65,7 +65,7 @@ let trace bc cf bs al ops =
     let nops = Stdlib.List.length ops in
     Stdlib.List.iteri (fun i op ->
       let ret = ref "-" in
-      let pi = Char.code op.[1] - 48 in let p = (pi = 1) in
+      let pi = if String.length op > 1 then Char.code op.[1] - 48 else 0 in let p = (pi = 1) in
       (match op.[0] with
        | 'a' ->
          let (w', bk) = PoolConc.coq_Allocate c uc !w p in
@@ -88,6 +88,10 @@ let trace bc cf bs al ops =
          w := PoolConc.coq_DeallocateIf c uc !w p f;
          live.(pi) <- Stdlib.List.filter (fun (_, s) -> not (s mod m = r mod m)) live.(pi)
        | 'x' -> w := PoolConc.coq_DeallocateAll !w p; live.(pi) <- []
+       | 's' -> w := PoolConc.coq_Swap !w; let t = live.(0) in live.(0) <- live.(1); live.(1) <- t
+       | 'v' ->
+         let d = pi and s = Char.code op.[2] - 48 in
+         if live.(d) = [] then begin w := PoolConc.coq_MoveAssign !w (d = 1); live.(d) <- live.(s); live.(s) <- [] end
        | 'm' ->
          let d = pi and s = Char.code op.[2] - 48 in
          w := PoolConc.coq_MergeFrom c uc !w (d = 1);
